@@ -13,6 +13,8 @@ ids = [p["id"] for p in props]
 checks = []
 import importlib
 for pid in ids:
+    if pid not in registry.READY:
+        continue
     r = registry.CHECKS.get(pid)
     if not r and os.path.exists(os.path.join(ROOT, "checks", pid.lower() + ".py")):
         try:
@@ -39,7 +41,7 @@ for pid in ids:
     })
 na = []
 for pid in ids:
-    if pid in registry.CHECKS:
+    if pid in registry.CHECKS and pid in registry.READY:
         continue
     na.append({"property_id": pid, "reason": registry.NOT_APPLICABLE.get(pid, "designed (see DESIGN.md section 4), check not built yet")})
 m = {
